@@ -260,3 +260,16 @@ Lemma roundtrip_refuted_small :
     swap_to (flat 10) (swapped res) (new_dst res) (new_src res) 98406000000 = Ok back /\
     swapped back = 2.
 Proof. eexists. eexists. split; [vm_compute; reflexivity|]. split; vm_compute; reflexivity. Qed.
+
+(* ---- the exact invariant, as an integer predicate ------------------------------------------------------- *)
+(* D is not above the exact invariant of reserves (x0,x1,x2) at ann = 3*amp:  D^4/(27 x0 x1 x2) + (ann-1) D <= ann (x0+x1+x2) *)
+Definition inv_le (ann x0 x1 x2 D : Z) : Prop :=
+  D * D * D * D + (ann - 1) * D * (27 * x0 * x1 * x2) <= ann * (x0 + x1 + x2) * (27 * x0 * x1 * x2).
+Definition inv_leb (ann x0 x1 x2 D : Z) : bool :=
+  D * D * D * D + (ann - 1) * D * (27 * x0 * x1 * x2) <=? ann * (x0 + x1 + x2) * (27 * x0 * x1 * x2).
+
+(* amp 2, reserves (15924, 18988, 6363): D = 39835 is below the exact invariant before a swap of 5189 and above it afterwards *)
+Lemma exact_invariant_monotone_refuted :
+  exists res, swap_to (flat 2) 5189 15924 18988 6363 = Ok res /\
+    inv_leb 6 15924 18988 6363 39835 = true /\ inv_leb 6 (new_src res) (new_dst res) 6363 39835 = false.
+Proof. eexists. split; [vm_compute; reflexivity|]. split; vm_compute; reflexivity. Qed.
